@@ -16,11 +16,38 @@ theorem convert_ok {r : RawFile} {p : Stark.Proof} (h : convert r = .ok p) :
   obtain ⟨⟨consts, dyn⟩, h1, h⟩ := bind_eq_ok h
   obtain ⟨cfg, h2, h⟩ := bind_eq_ok h
   obtain ⟨pi, h3, h⟩ := bind_eq_ok h
+  obtain ⟨_, _, h⟩ := bind_eq_ok h
   obtain ⟨items, h4, h⟩ := bind_eq_ok h
+  obtain ⟨_, _, h⟩ := bind_eq_ok h
   obtain ⟨u, h5, h⟩ := bind_eq_ok h
   obtain ⟨w, h6, h⟩ := bind_eq_ok h
   cases h
   exact ⟨consts, dyn, items, h1, h2, h3, h4, h5, h6⟩
+
+/-- a converted file's prover messages tile the proof (see `Loader.tiles`) -/
+theorem convert_tiles {r : RawFile} {p : Stark.Proof} (h : convert r = .ok p) : ∃ n, tiles r.annotations 0 = .ok n := by
+  unfold convert at h
+  obtain ⟨_, _, h⟩ := bind_eq_ok h
+  obtain ⟨_, _, h⟩ := bind_eq_ok h
+  obtain ⟨_, _, h⟩ := bind_eq_ok h
+  obtain ⟨n, ht, _⟩ := bind_eq_ok h
+  exact ⟨n, ht⟩
+
+/-- a converted file commits to exactly one root per inner FRI layer -/
+theorem convert_fri_commit_count {r : RawFile} {p : Stark.Proof} (h : convert r = .ok p) :
+    ((r.annotations.filterMap item?).filter isFriCommit).length + 1 = r.friStepList.length := by
+  unfold convert at h
+  obtain ⟨_, _, h⟩ := bind_eq_ok h
+  obtain ⟨_, _, h⟩ := bind_eq_ok h
+  obtain ⟨_, _, h⟩ := bind_eq_ok h
+  obtain ⟨_, _, h⟩ := bind_eq_ok h
+  obtain ⟨items, h4, h⟩ := bind_eq_ok h
+  obtain ⟨_, hc, _⟩ := bind_eq_ok h
+  obtain ⟨_, rfl⟩ := parseAnnotations_ok h4
+  unfold friCommitCount at hc
+  split at hc
+  · assumption
+  · cases hc
 
 /-- conversely: any failing stage makes `convert` fail (never a partially filled proof) -/
 theorem convert_error_of_annotations {r : RawFile} {e : String}
